@@ -447,16 +447,16 @@ func c08Build(t *c08Ty, v *c08Val) (rv reflect.Value, err error) {
 		return rv, nil
 	}
 	mismatch := fmt.Errorf("value %c does not fit kind %s", v.K, t.K)
-	switch t.K {
+	switch c08Base(t.K) {
 	case "i8", "i16", "i32", "i64", "int", "u8", "u16", "u32", "u64", "uint":
 		if v.K != 'i' {
 			return rv, mismatch
 		}
-		lo, hi, _ := c08IntRange(t.K)
+		lo, hi, _ := c08IntRange(c08Base(t.K))
 		if v.I.Cmp(lo) < 0 || v.I.Cmp(hi) > 0 {
 			return rv, fmt.Errorf("%s out of range of %s", v.I, t.K)
 		}
-		if t.K[0] == 'u' {
+		if c08Base(t.K)[0] == 'u' {
 			rv.SetUint(v.I.Uint64())
 		} else {
 			rv.SetInt(v.I.Int64())
@@ -527,7 +527,7 @@ func c08MapKeyLess(a, b string) bool { return a < b }
 // c08Show renders a Go value canonically: nil and empty collections alike, map entries in key
 // order, times as Unix seconds and nanoseconds.
 func c08Show(t *c08Ty, rv reflect.Value) string {
-	switch t.K {
+	switch c08Base(t.K) {
 	case "ptr":
 		if rv.IsNil() {
 			return "nil"
